@@ -379,6 +379,8 @@ def unmodelled_rebinding(chk, fn, stmts, n, g, keys):
                                  "outside the model: whether the omitted rows would equal the kept one is not decided")
             else:
                 k0 = "zDist" if "zDist" in dep else sorted(dep)[0]
+                # VIOLATED-soundness: the statement IS the recognised cut `X = X[:k]` of per-radius arrays under the guard, every part of the guard
+                # was understood (`complete`), and under the guard's own facts a table formula still depends on r (symbolic)
                 ok, why = False, (f"when `{cond_txt}` holds the tables are built for the first local radius only (`{src(cut[0])}`), i.e. every "
                                   f"flux surface is advected with the tables of that radius; but `{k0}` = {dep[k0]} still depends on r when "
                                   f"{' and '.join(assumed)}" + (" (through b_z = 1/sqrt(1 + (r iota/R0)^2))" if k0 in ("zDist", "self._shifts") else "") +
@@ -461,9 +463,15 @@ def lagrange_points(chk):
     # what a shift table MEANS is fixed by its reader: the kernel stores the value for column i, entry j at row i - S_j and evaluates
     # it at theta_k + T_j.  S_j / T_j are the table entries themselves in the reference convention; when the kernel reads the tables
     # with another convention (sign, offset - see F6-table-writer) the effective shifts are compared with the formulas of the property
-    conv, point_wrapped = None, False
+    # VIOLATED-soundness of the three table rules below (self._shifts, self._thetaShifts, zDiff): the formulas of the property fix
+    # what the kernels must DO with a table entry, so a table is compared with them only when the use of the tables by writer and
+    # reader together has been followed (meaning_known); otherwise a formula that differs is UNDECIDED
+    conv, point_wrapped, meaning_known, meaning_why = None, False, False, "the kernels that use the tables were not followed"
     try:
-        conv = writer_rule(chk).get("conv")
+        cv = shift_convention(chk)
+        conv = cv.get("conv")
+        meaning_known = cv.get("ok") is True
+        meaning_why = cv.get("why") or meaning_why
         point_wrapped = bool(writer_rule(chk).get("point_wrapped"))
     except (AnalysisError, Undecided, KeyError):
         conv = None
@@ -493,6 +501,10 @@ def lagrange_points(chk):
     abs_ok = {key: (alg_equal(got_of[key], abs_want) if got_of[key] is not None else None) for key, _, abs_want, _ in spec}
     all_results_ok = all(abs_ok[k] for k in results)
     flagged = set()
+    n_arange = [c_ for st_ in stmts for c_ in ast.walk(st_) if isinstance(c_, ast.Call) and src(c_.func) in ("np.arange", "numpy.arange", "arange")]
+    if len(n_arange) > 1:
+        # several ranges share the engine's one symbol K: formulas containing K are not reliable
+        meaning_known, meaning_why = False, f"{len(n_arange)} np.arange calls in the method are not distinguished by the element-wise model"
     for key, rel_want, abs_want, what in spec:
         got = got_of[key]
         note = conv_note if key in ("self._shifts", "self._thetaShifts", "zDiff") else ""
@@ -521,11 +533,21 @@ def lagrange_points(chk):
             why = f"`{key}` is {got}, expected {want if not ok_rel else abs_want} ({what})" + note
             if got.has(TRUNC):
                 why += ": the conversion to int truncates towards zero, so for negative displacements the stencil is one cell off the floor"
+            if key in results and not meaning_known:
+                ok = None
+                why += f" - not decided: how the kernels use the table entries is not established ({meaning_why[:200]})"
+            elif key not in results and any(got_of[k_] is None for k_ in results):
+                # an intermediate local is identified by its NAME: a different formula under that name is a defect only when the stored
+                # tables (whose meaning is fixed by the kernels) were all extracted, so that the difference is seen to reach them
+                ok = None
+                why += " - not decided: the stored tables that depend on it were not all extracted, a local of this name may have another meaning"
         chk.ob("F6-lagrange-geometry", fn, f"{key} = ...", ok, why, file=U.ADV, func=q,
                facts={"code": str(got), "spec": str(want), "absolute_spec": str(abs_want), "matches_absolute": bool(abs_ok[key])})
     unmodelled_rebinding(chk, fn, stmts, n, g, [key for key, *_ in spec] + ["self._lagrangeCoeffs"])
     # stencil offsets centred on the foot: K in [floor(-n/2)+1, floor(n/2)+1)
-    ar = n.aranges.get("K")
+    # the engine writes every np.arange(...) as the one symbol K: read as "the stencil offsets" only when there is exactly one such call
+    n_ar = [c_ for st_ in stmts for c_ in ast.walk(st_) if isinstance(c_, ast.Call) and src(c_.func) in ("np.arange", "numpy.arange", "arange")]
+    ar = n.aranges.get("K") if len(n_ar) == 1 and not n_ar[0].keywords else None
     okc, whyc = None, "stencil offsets np.arange(lo, hi) not extractable"
     if ar and len(ar) == 2:
         nL = n.hooks["self._zLagrangePts"]
@@ -539,6 +561,12 @@ def lagrange_points(chk):
                 res.append((dl, dh))
             if all(dl == 0 and dh == 0 for dl, dh in res):
                 okc = True
+            elif all(dl.is_number and dh.is_number for dl, dh in res) and (conv is not None or not meaning_known):
+                # the offsets are part of the stored shifts: under a convention of the tables other than the reference one (or when the
+                # kernels were not followed) a shifted range of offsets is not by itself off-centre (the effective shifts are compared
+                # by F6-lagrange-geometry)
+                whyc = (f"the stencil offsets run from {lo} to {hi}: not comparable with floor(-n/2)+1 .. floor(n/2) because the kernels read the "
+                        "shift tables with another convention / were not followed")
             elif all(dl.is_number and dh.is_number for dl, dh in res):
                 okc = False
                 dl, dh = next((a, b) for a, b in res if a != 0 or b != 0)
@@ -569,13 +597,15 @@ def lagrange_points(chk):
                f"weights are {coeffs}; omega ok={shape_ok}, lambda ok={lam_ok}, exact on-node test ok={cond_exact}")
     elif all(x is not None for x in (coeffs, zDiff, lambdas)) and omega is None and isinstance(coeffs, ITE) \
             and alg_equal(coeffs.args[2] * zDiff, lambdas):
+        # VIOLATED-soundness: recognised wrong form, extracted symbolically: the STORED weights equal ITE(on node, 1, lambda_j/(foot - node_j))
+        # exactly - whether or not a later stage renormalises, the on-node weight 1 then comes with non-zero weights on the other nodes
         ok = False
         why = ("the weights are lambda_j / (foot - node_j) without the factor omega = prod_j (foot - node_j): they are not the Lagrange weights "
                "(they do not sum to 1 unless renormalised later), and when the foot hits a node the bare 1 written there no longer comes with "
                "zero weights on the other nodes (these used to vanish through omega = 0)")
     # the on-node test must be exact equality (a tolerance snaps near-node feet while the other weights stay non-zero)
     wh = [c for st in stmts for c in ast.walk(st) if isinstance(c, ast.Call) and src(c.func) == "np.where"]
-    if wh and ok is None:
+    if wh and ok is None and len(wh[0].args) == 3 and isinstance(wh[0].args[1], ast.Constant) and wh[0].args[1].value == 1:
         cnd = wh[0].args[0]
         env = {st.targets[0].id: st.value for st in stmts if isinstance(st, ast.Assign) and isinstance(st.targets[0], ast.Name)}
         cexp = env.get(cnd.id) if isinstance(cnd, ast.Name) else cnd
@@ -609,12 +639,26 @@ def sibling_geometry(chk):
                                       src(st.value.func).split(".")[-1] in ("empty", "zeros", "ndarray", "SplineInterpolator1D", "Spline1D"))])
     ok = None
     got = n.env.get("self._bz")
+    _store(chk)["_c10_bz_ratio"] = Integer(1) if got is not None else None
     why = f"b_z not extractable: {n.env.get('<undecided>self._bz', 'self._bz is not assigned at the top level of the constructor')}"
     if got is not None:
         want = 1 / sp.sqrt(1 + (r * iota(r) / R0) ** 2)
         ok = alg_equal(got, want)
         why = "b_z(r) has the same normal form as in the flux-surface advection" if ok else \
             f"b_z is {got}, the flux-surface advection (and the property) use {want}: the two operators disagree about the field direction"
+        if not ok:
+            # what the attribute holds is a contract with the method that multiplies by it: a factor that does not depend on the radius
+            # (1/dz folded into the table, a sign) is a scaling convention, judged end to end by F7-scaling of C13; VIOLATED here needs a
+            # different dependence on r
+            try:
+                ratio = sp.simplify(got / want)
+                if not ratio.has(r) and not ratio.has(iota):
+                    ok = None
+                    why = (f"self._bz holds b_z(r) times the radius-independent factor {ratio}: a scaling convention between the constructor and "
+                           "parallel_gradient, decided end to end by the scaling rule of C13 (F7-scaling), not here")
+                    _store(chk)["_c10_bz_ratio"] = ratio
+            except Exception:          # noqa: BLE001
+                ok = None
     chk.ob("F6-sibling-geometry", bzs[0] if bzs else pg, "ParallelGradient._bz", ok, why, file=U.ADV, func="ParallelGradient.__init__")
     fl = chk.func(U.ADV, "fieldline")
     params = [a.arg for a in fl.args.args]
@@ -1226,10 +1270,12 @@ def writer_rule(chk):
                 v2 = _V()
                 v2.cells = {kk: vals.cells[keys[0]]} if kk is not None and len(keys) == 1 else dict(vals.cells)
                 why = _writer_diagnosis(v2, [kk] if kk is not None and len(keys) == 1 else keys, wk, want_val, congruent)
-        if not ok and roles_known and len(keys) == 1:
-            # another CONVENTION of the shift tables (sign, offset) is not a defect by itself: row = i - g(shifts[j]), point =
-            # theta_k + h(thetaShifts[j]) with g, h functions of the table entry alone; the tables are then compared under this
-            # convention (F6-lagrange-geometry: effective cell shift / effective theta shift)
+        res["alone_ok"] = bool(ok)
+        if roles_known and len(keys) == 1:
+            # the writer's PART of the contract with the reader: row = (i - g(shifts[j])) [mod nz], point = theta_k + h(thetaShifts[j],
+            # shifts[j]) with g, h functions of the table entries alone (g = 0: the whole cell shift is left to the reader; g = identity:
+            # the reference code).  The parts of writer and reader are composed by shift_convention(); the tables are then compared with
+            # the formulas of the property under the composed convention (F6-lagrange-geometry)
             strip = lambda e: e.replace(lambda x: x.func == Function("mod") and x.args[1] == nz, lambda x: x.args[0])
             val = vals.cells[keys[0]]
             arg = val.args[0] if isinstance(val, sp.Basic) and val.func == S1 and val.args else None
@@ -1242,18 +1288,14 @@ def writer_rule(chk):
                     """e is a function of the table entries in `allowed` alone"""
                     e2 = e.subs({sh(j): X_, ts(j): Y_})
                     return not (e2.free_symbols - allowed) and not [a_ for a_ in e2.atoms(sp.Function) if not isinstance(a_, (sp.floor, sp.ceiling))]
-                if only(s_eff, {X_}) and s_eff.has(sh(j)) and only(t_eff, {X_, Y_}) and t_eff.has(ts(j)) \
-                        and alg_equal(val, S1(Wrap(qv(k) + t_eff), 0, *fam)):
-                    res["conv"] = (s_eff, t_eff, sh(j), ts(j))
-                    ok = True
-                    why = (f"the value for source row i and stencil entry j is stored at row (i - S_j) mod nz and evaluated at theta_k + T_j with "
-                           f"the effective cell shift S_j = {s_eff} and the effective theta shift T_j = {t_eff} (a convention of the shift tables "
-                           f"other than S_j = shifts[j], T_j = thetaShifts[j]); the tables are compared with the formulas of the property under this "
-                           f"convention (F6-lagrange-geometry); the table is written as {_axes_text(perm)}")
+                z_wrapped = keys[0][perm[0]].func == Function("mod") and keys[0][perm[0]].args[1] == nz
+                if only(s_eff, {X_}) and only(t_eff, {X_, Y_}) and alg_equal(val, S1(Wrap(qv(k) + t_eff), 0, *fam)) \
+                        and (z_wrapped or sp.simplify(s_eff) == 0):
+                    res["parts"] = (s_eff, t_eff, sh(j), ts(j), j)
         if ok or roles_known:
             res["perm"] = perm
         v_ = vals.cells[keys[0]] if len(keys) == 1 else None
-        res["point_wrapped"] = bool(ok and isinstance(v_, sp.Basic) and v_.func == S1 and v_.args and v_.args[0].func == Wrap)
+        res["point_wrapped"] = bool((ok or res.get("parts") is not None) and isinstance(v_, sp.Basic) and v_.func == S1 and v_.args and v_.args[0].func == Wrap)
         res["ob"] = dict(rule="F6-table-writer", node=fn, construct=label_w, ok=ok, why=why,
                          facts={"key": str(keys[0]) if keys else "", "value": str(vals.cells[keys[0]]) if keys else "", "axes": _axes_text(perm)})
     except (Undecided, KeyError) as e:
@@ -1267,48 +1309,283 @@ def writer_rule(chk):
     return res
 
 
-def kernels(chk):
-    import itertools
+def reader_call_model(chk):
+    """the call of flux_advection in FluxSurfaceAdvection.step: {'call', 'bind' (kernel formal -> actual with single-assignment locals
+    written out, `*self._nPoints` split into its two components), 'role' (kernel formal -> 'vals' | 'lagrangeCoeffs' | 'shifts' |
+    'thetaShifts' | 'f' | 'n_theta' | 'n_z' | None), 'entry' (formal -> text of the (r, v) entry of a per-(r, v) table)} or None
+    when the call is not found / cannot be bound (cached)"""
+    from ..core import same_expr
+    cache = chk.__dict__.setdefault("_c10_rcall", {})
+    if "model" in cache:
+        return cache["model"]
+    cache["model"] = None
+    fn = chk.func(U.ADV, f"{CLS}.step")
     kmod = chk.mod(U.ADVK)
-    lay = chk.__dict__.setdefault("_c10_layout", {})
-    # writer: general_get_lagrange_vals
-    wr = writer_rule(chk)
-    if wr["perm"] is not None:
-        lay["writer"] = wr["perm"]
-    o_ = wr["ob"]
-    chk.ob(o_["rule"], o_["node"], o_["construct"], o_["ok"], o_["why"], file=U.ADVK, func="general_get_lagrange_vals", facts=o_["facts"])
-    # reader: flux_advection
+    calls = [c for c in ast.walk(fn) if isinstance(c, ast.Call) and isinstance(c.func, ast.Name) and c.func.id == "flux_advection"]
+    if len(calls) != 1:
+        return None
+    c2 = calls[0]
+    defs = single_defs(fn)
+    two = False
+    al = table_alloc(chk)
+    npt = al.get("npt")
+    if isinstance(npt, (ast.Tuple, ast.List)) and len(npt.elts) == 2 and not any(isinstance(e, ast.Starred) for e in npt.elts):
+        two = True          # self._nPoints is bound once, to a pair
+    actual = []
+    for x in c2.args:
+        if isinstance(x, ast.Starred) and same_expr(x.value, "self._nPoints") and two:
+            actual += [ast.parse("self._nPoints[0]", mode="eval").body, ast.parse("self._nPoints[1]", mode="eval").body]
+        else:
+            actual.append(x)
+    if any(isinstance(x, ast.Starred) for x in actual) or any(k.arg is None for k in c2.keywords):
+        return None
+    kfn = kmod.func("flux_advection")
+    if kfn.args.vararg is not None or kfn.args.kwarg is not None:
+        return None
+    fformals = [a.arg for a in kfn.args.args]
+    b2 = agree.bind_call(ast.Call(func=c2.func, args=actual, keywords=c2.keywords), fformals)
+    if b2 is None:
+        cache["model"] = {"call": c2, "bind": None, "formals": fformals, "role": {}, "entry": {}}
+        return cache["model"]
+    b2 = {k_: resolved(v_, defs) for k_, v_ in b2.items()}
+
+    def strip_copies(e):
+        while True:
+            if isinstance(e, ast.Call) and isinstance(e.func, ast.Attribute) and e.func.attr in ("astype", "copy", "view") and len(e.args) <= 1 and not e.keywords:
+                e = e.func.value
+            elif isinstance(e, ast.Call) and src(e.func) in ("np.ascontiguousarray", "np.asarray", "np.array", "np.asfortranarray") and len(e.args) == 1 and not e.keywords:
+                e = e.args[0]
+            else:
+                return e
+
+    def entry_of(sub):
+        items = list(sub.slice.elts) if isinstance(sub.slice, ast.Tuple) else [sub.slice]
+        full = lambda i_: isinstance(i_, ast.Slice) and i_.lower is None and i_.upper is None and i_.step is None
+        return ", ".join(sorted(src(i_) for i_ in items if not full(i_) and not (isinstance(i_, ast.Constant) and i_.value is Ellipsis)))
+    role, entry = {}, {}
+    for f_, a_ in b2.items():
+        a_ = strip_copies(a_)
+        r_ = None
+        if same_expr(a_, "self._LagrangeVals"):
+            r_ = "vals"
+        elif isinstance(a_, ast.Subscript) and src(a_.value) in CANON_ROWS and not isinstance(a_.slice, ast.Slice):
+            r_ = CANON_ROWS[src(a_.value)]
+            entry[f_] = entry_of(a_)
+        elif isinstance(a_, ast.Name) and a_.id in {x.arg for x in fn.args.args} and a_.id == [x.arg for x in fn.args.args if x.arg != "self"][0]:
+            r_ = "f"
+        elif same_expr(a_, "self._nPoints[0]") or same_expr(a_, "self._points[0].size") or same_expr(a_, "len(self._points[0])"):
+            r_ = "n_theta"
+        elif same_expr(a_, "self._nPoints[1]") or same_expr(a_, "self._points[1].size") or same_expr(a_, "len(self._points[1])"):
+            r_ = "n_z"
+        role[f_] = r_
+    cache["model"] = {"call": c2, "bind": b2, "formals": fformals, "role": role, "entry": entry}
+    return cache["model"]
+
+
+def reader_rule(chk):
+    """the kernel that reads the table of field-line values (flux_advection), seen together with the call in step (cached; no
+    obligation is recorded here): {'ob': arguments of the F6-table-reader obligation, 'perm': axis roles (z row, theta node, stencil
+    entry) or None, 'r_shift': cell shift the READER applies - it reads row (i + r_shift(shifts[k])) mod nz for target column i and
+    stencil entry k - as an expression in shifts(k), 0 in the reference code, 'k': the stencil symbol}.
+    Which side applies the periodic cell shift is a contract between writer and reader: the rule only establishes the reader's part;
+    the two parts are composed by shift_convention()."""
+    from ..symx import Arr
+    st_ = _store(chk)
+    if "_c10_reader" in st_:
+        return st_["_c10_reader"]
+    res = {"ob": None, "perm": None, "r_shift": None, "k": None}
+    st_["_c10_reader"] = res
+    kmod = chk.mod(U.ADVK)
     fr = kmod.func("flux_advection")
     chk.functions.add(f"{U.ADVK}:flux_advection")
+    label = "f[j,i] = sum_k coeffs[k] vals[z i (+ cell shift), theta j, stencil k]  (axes in the table's own order)"
     try:
         fr_s = devectorise(fr)
-        a2 = make_args(fr_s)
-        ex2 = SymExec(fr_s, a2, calls={"mod": _h_mod})
+        rc = reader_call_model(chk)
+        formals = [a.arg for a in fr_s.args.args]
+        role_of = dict(rc["role"]) if rc and rc.get("bind") else {}
+        # roles of the kernel's parameters: from the call in step; a parameter the call model has no role for keeps its own name
+        # (then the names vals / coeffs / f are the roles, as in the reference signature)
+        by_role = {}
+        for f_, r_ in role_of.items():
+            if r_ is not None:
+                by_role.setdefault(r_, []).append(f_)
+        if any(len(v_) > 1 for v_ in by_role.values()):
+            raise Undecided(f"two parameters of the kernel receive the same quantity at the call in step: {by_role}")
+        pf = {r_: (by_role[r_][0] if r_ in by_role else dflt) for r_, dflt in (("vals", "vals"), ("lagrangeCoeffs", "coeffs"), ("f", "f"))}
+        for r_, f_ in pf.items():
+            if f_ not in formals:
+                raise Undecided(f"no parameter of flux_advection receives the {r_} (parameters {formals})")
+        ov = {pf["vals"]: Arr("vals"), pf["lagrangeCoeffs"]: Arr("coeffs")}
+        for r_ in ("shifts", "thetaShifts"):
+            if r_ in by_role:
+                ov[by_role[r_][0]] = Arr(r_)
+        a2 = make_args(fr_s, overrides=ov)
+        ex2 = SymExec(fr_s, a2, calls={"mod": _h_mod, "remainder": _h_mod})
         ex2.run()
-        i, j, k = (Symbol(x, integer=True) for x in "ijk")
-        got = ex2.env["f"].read([j, i])
-        c, v = a2["coeffs"].fn, a2["vals"].fn
+        fa = ex2.env.get(pf["f"])
+        # the engine turns an array whose only written cell is keyed by distinct loop counters into a generic element (any index names)
+        if not isinstance(fa, Arr) or fa.cells or fa.generic is None:
+            raise Undecided("the field is not written point-wise at [theta index, z index] by two loop counters (one family of cells expected)")
+        j, i = Symbol("j", integer=True), Symbol("i", integer=True)
+        got = _sums_from_zero(fa.read([j, i]))
+        c, v = Function("coeffs"), Function("vals")
+        sums = [x for x in got.atoms(sp.Sum)]
+        if len(sums) != 1 or len(sums[0].limits) != 1:
+            raise Undecided(f"the new value is not one sum over the stencil: {str(got)[:160]}")
+        k, klo, khi = sums[0].limits[0]
         nco = Symbol("n0_coeffs", integer=True, positive=True)
+        if sp.simplify(klo) != 0 or sp.simplify(khi - (nco - 1)) != 0:
+            raise Undecided(f"the sum runs over k = {klo} .. {khi}, not over all len(coeffs) stencil entries")
+        vat = [x for x in sums[0].function.atoms(sp.Function) if x.func == v]
+        if len(vat) != 1 or len(vat[0].args) != 3:
+            raise Undecided(f"the summand does not contain exactly one entry of the table: {str(sums[0].function)[:120]}")
+        args = list(vat[0].args)
+        nzs = {ax: Symbol(f"n{ax}_vals", integer=True, positive=True) for ax in range(3)}
 
-        def want_for(perm):
-            def at(z, th, s_):
-                d = {perm[0]: z, perm[1]: th, perm[2]: s_}
-                return v(*[d[a] for a in range(3)])
-            return c(0) * at(i, j, 0) + sp.Sum(c(k) * at(i, j, k), (k, 1, nco - 1))
-        cands = [lay["writer"]] if "writer" in lay else []
-        cands += [p_ for p_ in itertools.permutations(range(3)) if p_ not in cands]
-        got = _sums_from_zero(got)
-        rperm = next((p_ for p_ in cands if alg_equal(got, _sums_from_zero(want_for(p_)))), None)
-        ok = rperm is not None
-        if ok:
-            lay["reader"] = rperm
-        chk.ob("F6-table-reader", fr, "f[j,i] = sum_k coeffs[k] vals[z i, theta j, stencil k]  (axes in the table's own order)", ok,
-               f"new value at (theta j, z i) = Lagrange-weighted sum over the stencil of the entries of row i; the table is read as {_axes_text(rperm)}"
-               if ok else f"reader computes {got}", file=U.ADVK, func="flux_advection")
+        def unmod(e, ax):
+            if e.func == Function("mod") and len(e.args) == 2 and e.args[1] == nzs[ax]:
+                return e.args[0], True
+            return e, False
+        # which axis carries which index: the theta index j of the point, the stencil counter k, the z index i (possibly shifted)
+        cls_ = {}
+        for ax, e in enumerate(args):
+            core, _ = unmod(e, ax)
+            fs = core.free_symbols
+            if core == j:
+                cls_.setdefault("theta", []).append(ax)
+            elif core == k:
+                cls_.setdefault("stencil", []).append(ax)
+            elif i in fs and j not in fs:
+                cls_.setdefault("z", []).append(ax)
+            else:
+                cls_.setdefault("other", []).append(ax)
+        w = sp.simplify(sums[0].function / vat[0])
+        if w.has(v):
+            raise Undecided(f"the summand is not (weight) x (table entry): {str(sums[0].function)[:120]}")
+        bad = None
+        if "other" not in cls_ and not cls_.get("theta"):
+            bad = (f"the table entry read for the point (theta j, z i) is vals{tuple(args)}: no axis is subscripted with the theta index of the "
+                   "point, every theta node gets the same value")
+        elif "other" not in cls_ and not cls_.get("stencil"):
+            bad = (f"the table entry read for stencil entry k is vals{tuple(args)}: no axis is subscripted with the stencil counter, the sum "
+                   "combines one table entry with all the weights")
+        elif w.func == c and len(w.args) == 1 and cls_.get("stencil") and "other" not in cls_ and sp.simplify(w.args[0] - k) != 0 \
+                and not (w.args[0].free_symbols - {k, nco}):
+            bad = (f"the weight is coeffs[{w.args[0]}] while the table entry is that of stencil entry {k}: weight and value of different "
+                   "stencil entries are paired")
+        if bad:
+            res["ob"] = dict(rule="F6-table-reader", node=fr, construct=label, ok=False, why=bad)
+            return res
+        if any(len(cls_.get(r_, [])) != 1 for r_ in ("z", "theta", "stencil")) or "other" in cls_:
+            raise Undecided(f"axes of the table entry vals{tuple(args)} not recognised as (z index, theta index j, stencil counter k) in some order")
+        perm = (cls_["z"][0], cls_["theta"][0], cls_["stencil"][0])
+        zcore, wrapped = unmod(args[perm[0]], perm[0])
+        R = sp.simplify(zcore - i)
+        shf = Function("shifts")
+        foreign = [x for x in R.atoms(sp.Function) if not (x.func == shf and x.args == (k,)) and not isinstance(x, (sp.floor, sp.ceiling))]
+        if R.has(i) or R.has(j) or foreign or (R.free_symbols - {k}):
+            raise Undecided(f"the row read for column i is {args[perm[0]]}: not i plus a function of the stencil entry's cell shift alone")
+        if R.has(shf) and "shifts" not in by_role:
+            raise Undecided("the reader shifts the row by a parameter named `shifts`, but the call in step was not followed: what it receives is not established")
+        if sp.simplify(R) != 0 and not wrapped:
+            raise Undecided(f"the row i + ({R}) read by the kernel is not reduced modulo the length of the axis: it may lie outside the table")
+        if not (w.func == c and len(w.args) == 1 and sp.simplify(w.args[0] - k) == 0):
+            raise Undecided(f"the weight of the table entry is {w}, not coeffs[k]")
+        # the sum written out from its parts must be the extracted value (nothing else is added)
+        if not alg_equal(got, sp.Sum(c(k) * vat[0], (k, 0, nco - 1))):
+            raise Undecided(f"the new value is not only the weighted sum over the stencil: {str(got)[:160]}")
+        res.update(perm=perm, r_shift=R, k=k)
+        res["ob"] = dict(rule="F6-table-reader", node=fr, construct=label, ok=True,
+                         why=f"new value at (theta j, z i) = Lagrange-weighted sum over the stencil of the entries of row "
+                             f"{'i' if sp.simplify(R) == 0 else '(i + ' + str(R) + ') mod nz'}; the table is read as {_axes_text(perm)}")
     except (Undecided, KeyError) as e:
-        chk.ob("F6-table-reader", fr, "flux_advection", None, "outside the extractable fragment: " +
-               (f"the kernel has no parameter {e}" if isinstance(e, KeyError) else str(e)), file=U.ADVK, func="flux_advection")
-    agree.check_wrapper_dispatch(chk, kmod, "get_lagrange_vals", "general_get_lagrange_vals")
+        res["ob"] = dict(rule="F6-table-reader", node=fr, construct="flux_advection", ok=None, why="outside the extractable fragment: " +
+                         (f"the kernel has no parameter {e}" if isinstance(e, KeyError) else str(e)))
+    except AnalysisError:
+        raise
+    except Exception as e:          # noqa: BLE001 - a form the symbolic model cannot digest is undecided
+        res["ob"] = dict(rule="F6-table-reader", node=fr, construct="flux_advection", ok=None,
+                         why=f"outside the extractable fragment: {type(e).__name__}: {e}")
+    return res
+
+
+def shift_convention(chk):
+    """writer and reader of the value table composed: the value the point (theta j, z i) takes for stencil entry k comes from source
+    column i + S_k (mod nz) with S_k = (shift applied by the writer: it stores source column c at row c - w(shifts[k])) + (shift
+    applied by the reader: it reads row i + r(shifts[k])), evaluated at theta_j + T_k.
+    -> {'conv': None (S_k = shifts[k], T_k = thetaShifts[k]: the reference meaning of the tables) or (S, T, shifts(j), thetaShifts(j)),
+        'ok': True / False / None, 'why'} (cached)"""
+    st_ = _store(chk)
+    if "_c10_conv" in st_:
+        return st_["_c10_conv"]
+    out = {"conv": None, "ok": None, "why": "writer or reader of the value table not followed"}
+    st_["_c10_conv"] = out
+    wr, rd = writer_rule(chk), reader_rule(chk)
+    parts = wr.get("parts")
+    if parts is None or rd.get("r_shift") is None:
+        # one side not followed: the reference meaning is assumed only when the side that WAS followed applies the whole shift
+        if wr.get("ob") and wr["ob"]["ok"] is True and wr.get("conv") is None and rd.get("r_shift") is None and rd.get("ob") and rd["ob"]["ok"] is None:
+            out.update(ok=None, why="the reader was not followed: whether it shifts the rows again is not established")
+        return out
+    s_w, t_eff, shj, tsj, j = parts
+    r_r = rd["r_shift"].subs(rd["k"], j) if rd["k"] is not None else rd["r_shift"]
+    S = sp.simplify(s_w + r_r)
+    X_, Y_ = Symbol("_tab_shift"), Symbol("_tab_theta")
+
+    def only(e, allowed):
+        e2 = e.subs({shj: X_, tsj: Y_})
+        return not (e2.free_symbols - allowed) and not [a_ for a_ in e2.atoms(sp.Function) if not isinstance(a_, (sp.floor, sp.ceiling))]
+    if not only(S, {X_}) or not only(t_eff, {X_, Y_}):
+        out.update(ok=None, why=f"composed cell shift {S} / theta shift {t_eff} are not functions of the table entries alone")
+        return out
+    if not S.has(shj):
+        out.update(ok=False, why=(f"writer and reader composed: the value at (theta j, z i) for stencil entry k is taken from source column "
+                                  f"i + ({S}) - the writer stores source column c at row c - ({s_w}), the reader reads row i + ({r_r}): the cell "
+                                  "shift shifts[k] of the stencil entry is applied by neither side, every stencil entry reads the same column"))
+        return out
+    if not t_eff.has(tsj):
+        out.update(ok=None, why=f"the evaluation point theta_k + ({t_eff}) does not use the theta-shift table")
+        return out
+    ref = sp.simplify(S - shj) == 0 and sp.simplify(t_eff - tsj) == 0
+    out.update(conv=None if ref else (S, t_eff, shj, tsj), ok=True, s_w=s_w, r_r=r_r,
+               why=(f"writer and reader composed: source column = i + ({S}) mod nz (writer part {s_w}, reader part {r_r}), evaluation point "
+                    f"theta_j + ({t_eff})"))
+    return out
+
+
+def kernels(chk):
+    kmod = chk.mod(U.ADVK)
+    lay = chk.__dict__.setdefault("_c10_layout", {})
+    wr = writer_rule(chk)
+    rd = reader_rule(chk)
+    cv = shift_convention(chk)
+    if wr["perm"] is not None:
+        lay["writer"] = wr["perm"]
+    if rd["perm"] is not None:
+        lay["reader"] = rd["perm"]
+    o_ = dict(wr["ob"])
+    # which side applies the periodic cell shift is a contract between the two kernels: when the writer alone does not store the
+    # value of source column i at row (i - shifts[j]) mod nz, the verdict is that of the composition with the reader
+    if wr.get("parts") is not None and wr.get("alone_ok") is False:
+        if cv["ok"] is True:
+            o_["ok"] = True
+            o_["why"] = (cv["why"] + (": a convention of the shift tables other than S = shifts[j], T = thetaShifts[j]; the tables are compared "
+                                      "with the formulas of the property under it (F6-lagrange-geometry)" if cv["conv"] is not None else
+                                      ": together the two kernels apply the cell shift shifts[k] once") + f"; the table is written as {_axes_text(wr['perm'])}")
+        elif cv["ok"] is False:
+            o_["ok"], o_["why"] = False, cv["why"]
+        else:
+            o_["ok"], o_["why"] = None, f"{wr['ob']['why']} - judged together with the reader: {cv['why']}"
+    chk.ob(o_["rule"], o_["node"], o_["construct"], o_["ok"], o_["why"], file=U.ADVK, func="general_get_lagrange_vals", facts=o_.get("facts", {}))
+    r_ = dict(rd["ob"])
+    if r_["ok"] is True and rd.get("r_shift") is not None and sp.simplify(rd["r_shift"]) != 0 and cv["ok"] is not True:
+        # the reader shifts the rows itself: right only together with a writer that leaves (part of) the shift to it
+        r_["ok"] = False if cv["ok"] is False else None
+        r_["why"] = r_["why"] + " - " + cv["why"]
+    chk.ob(r_["rule"], r_["node"], r_["construct"], r_["ok"], r_["why"], file=U.ADVK, func="flux_advection")
+    from .C05 import wrapper_dispatch
+    wrapper_dispatch(chk, kmod, "get_lagrange_vals", "general_get_lagrange_vals")
 
 
 def table_layout(chk):
@@ -1322,11 +1599,50 @@ def table_layout(chk):
     if len(have) < 3 and len(set(have.values())) <= 1:
         # a side whose axes were not extracted has been reported by its own rule (F6-table-writer / -reader / E2-point-order)
         return
+    # VIOLATED-soundness: relational - the axis roles of writer, reader and allocation were each read off the code (stored cell, summed
+    # entry, allocated extents); a side whose roles were not established is not in `have`
     ok = len(set(have.values())) == 1
     chk.ob("F6-table-layout", node, "axes of self._LagrangeVals: writer = reader = allocation", ok,
            f"all three use {_axes_text(have['writer'])}" if ok else
            f"{text}: the value stored for (z row, theta node, stencil entry) is read back as another entry of the table (or lies outside it)",
            file=U.ADV if "alloc_node" in lay else U.ADVK, func=f"{CLS}.__init__" if "alloc_node" in lay else "flux_advection")
+
+
+def _field_axis_bounds(kfn, fparam):
+    """(parameter bounding the loop over axis 0 of the field, parameter bounding the loop over axis 1) read off the kernel:
+    `for a in range(P): for b in range(Q): F[a, b] = ...` -> (P, Q); None when the store is not of this form"""
+    if fparam is None:
+        return None
+    params = {a.arg for a in kfn.args.args}
+    out = set()
+    for st in ast.walk(kfn):
+        tg = st.targets[0] if isinstance(st, ast.Assign) and len(st.targets) == 1 else st.target if isinstance(st, ast.AugAssign) else None
+        if isinstance(tg, ast.Subscript) and isinstance(tg.value, ast.Name) and tg.value.id == fparam and isinstance(tg.slice, ast.Tuple) \
+                and len(tg.slice.elts) == 2 and all(isinstance(x, ast.Name) for x in tg.slice.elts):
+            bounds = []
+            for x in tg.slice.elts:
+                p_ = parent(st)
+                found = None
+                while p_ is not None and p_ is not kfn:
+                    if isinstance(p_, ast.For) and isinstance(p_.target, ast.Name) and p_.target.id == x.id:
+                        it = p_.iter
+                        if isinstance(it, ast.Call) and isinstance(it.func, ast.Name) and it.func.id == "range" and len(it.args) == 1 \
+                                and not it.keywords and isinstance(it.args[0], ast.Name) and it.args[0].id in params:
+                            found = it.args[0].id
+                        break
+                    p_ = parent(p_)
+                bounds.append(found)
+            if None in bounds:
+                return None
+            out.add(tuple(bounds))
+    return next(iter(out)) if len(out) == 1 else None
+
+
+def _n_subscripts(kfn, name):
+    """number of index positions with which the kernel subscripts its parameter `name` (None when it varies / is never subscripted)"""
+    ns = {len(n.slice.elts) if isinstance(n.slice, ast.Tuple) else 1 for n in ast.walk(kfn)
+          if isinstance(n, ast.Subscript) and isinstance(n.value, ast.Name) and n.value.id == name}
+    return next(iter(ns)) if len(ns) == 1 else None
 
 
 def step_wiring(chk):
@@ -1346,11 +1662,12 @@ def step_wiring(chk):
         model = None
     defs = model["defs"] if model else {}
     c1r = model["call_resolved"] if model else c1
-    agree.check_roles(chk, U.ADV, f"{CLS}.step", c1r, [a.arg for a in kmod.func("get_lagrange_vals").args.args], {
+    from .C05 import roles as _roles
+    _roles(chk, U.ADV, f"{CLS}.step", c1r, [a.arg for a in kmod.func("get_lagrange_vals").args.args], {
         "i": "i", "self._shifts[rIdx, cIdx]": "shifts", "self._LagrangeVals": "vals", "self._points[0]": "qVals",
         "self._thetaShifts[rIdx, cIdx]": "thetaShifts", "self._thetaSpline.basis.knots": "kts",
         "self._thetaSpline.basis.degree": "deg", "self._thetaSpline.coeffs": "coeffs",
-        "self._thetaSpline.basis.cubic_uniform": "cubic_uniform_splines"})
+        "self._thetaSpline.basis.cubic_uniform": "cubic_uniform_splines"}, callee=kmod.func("get_lagrange_vals"))
     c2 = calls["flux_advection"]
     from ..core import same_expr, enclosing_stmt
     b1 = agree.bind_call(c1r, [a.arg for a in kmod.func("get_lagrange_vals").args.args]) or {}
@@ -1363,36 +1680,52 @@ def step_wiring(chk):
         return ", ".join(sorted(src(i_) for i_ in items if not full(i_) and not (isinstance(i_, ast.Constant) and i_.value is Ellipsis)))
     entry = sorted({entry_of(n_) for n_ in ast.walk(c1r) if isinstance(n_, ast.Subscript) and src(n_.value) in ("self._shifts", "self._thetaShifts")
                     and not isinstance(n_.slice, ast.Slice)})
-    # flux_advection(nq, nr, f, coeffs, vals): `*self._nPoints` stands for its two components
-    actual = []
-    for x in c2.args:
-        if isinstance(x, ast.Starred) and same_expr(x.value, "self._nPoints"):
-            actual += [ast.parse("self._nPoints[0]", mode="eval").body, ast.parse("self._nPoints[1]", mode="eval").body]
-        else:
-            actual.append(x)
-    fformals = [a.arg for a in kmod.func("flux_advection").args.args]
-    call2 = ast.Call(func=c2.func, args=actual, keywords=c2.keywords)
-    b2 = None if any(isinstance(x, ast.Starred) for x in actual) else agree.bind_call(call2, fformals)
+    # flux_advection(nq, nr, f, coeffs, vals [, rows of other per-(r, v) tables]): the roles of the kernel's parameters are read off the
+    # call (what each of them receives) and off the kernel (which parameter bounds which axis of the field), not off their names.
+    # VIOLATED needs: every actual written out and bound (no * / ** other than the pair self._nPoints), the two size parameters
+    # identified in the kernel as the bounds of the loops over axis 0 / axis 1 of the field, table rows selected by index expressions
+    # that can be compared as text (same locals, no re-assignment between the two calls is assumed: the locals are single-assignment
+    # or parameters)
+    rc = reader_call_model(chk)
     ok, bad = None, None
-    if b2 is not None and set(b2) == set(fformals) == {"nq", "nr", "f", "coeffs", "vals"}:
-        idx = entry[0] if len(entry) == 1 else None
-        b2 = {k_: resolved(v_, defs) for k_, v_ in b2.items()}
-        cf = b2["coeffs"]
-        cidx = entry_of(cf) if isinstance(cf, ast.Subscript) and same_expr(cf.value, "self._lagrangeCoeffs") else None
-        sizes = (same_expr(b2["nq"], "self._nPoints[0]"), same_expr(b2["nr"], "self._nPoints[1]"))
-        rest = same_expr(b2["f"], "f") and same_expr(b2["vals"], "self._LagrangeVals")
-        if all(sizes) and rest and idx is not None and cidx == idx:
-            ok = True
-        elif same_expr(b2["nq"], "self._nPoints[1]") and same_expr(b2["nr"], "self._nPoints[0]"):
-            bad = "the numbers of theta and z points are handed over in the wrong order: the kernel loops over f[j, i] with j < n_z, i < n_theta"
-        elif idx is not None and cidx is not None and cidx != idx:
-            bad = (f"the weights are those of table entry [{cidx}] while the stencil shifts and theta shifts are those of entry [{idx}]: "
-                   "weights and shifts of different (r, v) surfaces are combined")
-        elif len(entry) > 1:
+    if rc is not None and rc.get("bind"):
+        role, ent, b2 = rc["role"], rc["entry"], rc["bind"]
+        by = {}
+        for f_, r_ in role.items():
+            by.setdefault(r_, []).append(f_)
+        kfn = kmod.func("flux_advection")
+        fformals = rc["formals"]
+        needed = ("n_theta", "n_z", "f", "lagrangeCoeffs", "vals")
+        complete = set(b2) == set(fformals) and None not in by and all(len(by.get(r_, [])) == 1 for r_ in needed) \
+            and all(len(v_) == 1 for v_ in by.values())
+        axes = _field_axis_bounds(devectorise(kfn), by.get("f", [None])[0])
+        by_name = False
+        if axes is None and {"nq", "nr"} <= set(fformals):
+            axes, by_name = ("nq", "nr"), True          # the reference names (number of theta points, number of z points): enough to HOLD
+        all_entries = sorted(set(entry) | set(ent.values()))
+        step_params = {x.arg for x in fn.args.args}
+        stable = all(isinstance(n_, ast.Name) and (n_.id in step_params or n_.id in defs or n_.id == "self") or not isinstance(n_, ast.Name)
+                     for f_ in ent for n_ in ast.walk(b2[f_]))
+        if complete and axes is not None:
+            straight = role.get(axes[0]) == "n_theta" and role.get(axes[1]) == "n_z"
+            crossed = role.get(axes[0]) == "n_z" and role.get(axes[1]) == "n_theta"
+            if straight and len(all_entries) == 1:
+                ok = True
+            elif crossed and not by_name:
+                bad = ("the numbers of theta and z points are handed over in the wrong order: the kernel loops over f[j, i] with j < n_z, "
+                       "i < n_theta")
+            elif straight and stable and len(entry) == 1 and ent.get(by["lagrangeCoeffs"][0]) not in (None, entry[0]):
+                bad = (f"the weights are those of table entry [{ent[by['lagrangeCoeffs'][0]]}] while the stencil shifts and theta shifts are those "
+                       f"of entry [{entry[0]}]: weights and shifts of different (r, v) surfaces are combined")
+            elif straight and stable and len(all_entries) > 1:
+                bad = (f"the rows of the per-(r, v) tables handed to the two kernels are those of different table entries {all_entries}: "
+                       "shifts / weights of different (r, v) surfaces are combined")
+        elif not complete and set(fformals) >= {"vals", "coeffs"} and role.get("vals") == "lagrangeCoeffs" and role.get("coeffs") == "vals" \
+                and _n_subscripts(kfn, "vals") == 3 and _n_subscripts(kfn, "coeffs") == 1:
+            bad = "weights and value table are handed over in each other's position"
+        if ok is None and bad is None and len(entry) > 1:
             bad = (f"the stencil shifts and the theta shifts handed to get_lagrange_vals are those of different table entries {entry}: "
                    "shifts of different (r, v) surfaces are combined")
-        elif same_expr(b2["vals"], "self._lagrangeCoeffs[rIdx, cIdx]") or same_expr(b2["coeffs"], "self._LagrangeVals"):
-            bad = "weights and value table are handed over in each other's position"
     chk.pat("E2-argument-role", c2, "flux_advection(*self._nPoints, f, coeffs[rIdx,cIdx], vals)", ok,
             "(n_theta, n_z), the field, the weights of the same (r,v) entry as the shifts, and the table", bad,
             file=U.ADV, func=f"{CLS}.step")
@@ -1445,9 +1778,15 @@ def step_wiring(chk):
         ci = [n for n in ast.walk(lp) if isinstance(n, ast.Call) and isinstance(n.func, ast.Attribute) and n.func.attr == "compute_interpolant"]
         in_loop = any(n is c2 for n in ast.walk(lp))
         pos = lambda n: (n.lineno, n.col_offset)
-        if in_loop:
+        rc_ = reader_call_model(chk)
+        f_formal = next((k_ for k_, v_ in (rc_ or {}).get("role", {}).items() if v_ == "f"), None)
+        if in_loop and f_formal is not None and len(ci) == 1 and ci[0].args and isinstance(ci[0].args[0], ast.Subscript) \
+                and src(ci[0].args[0].value) == src(rc_["bind"][f_formal]):
+            # recognised wrong form: the kernel that overwrites the whole field runs inside the loop that still interpolates columns of it
             badl = ("flux_advection overwrites f inside the loop over the z columns: the columns interpolated afterwards are already "
                     "advected values")
+        elif in_loop:
+            pass                # a call inside the loop on other data: not followed
         elif len(ci) == 1 and len(ci[0].args) == 2 and same_expr(ci[0].func.value, "self._interpolator") and same_expr(ci[0].args[1], "self._thetaSpline"):
             col = ci[0].args[0]
             # which table rows column i feeds is the writer rule's subject (F6-table-writer, caller and kernel as one unit); here: the
@@ -1457,13 +1796,16 @@ def step_wiring(chk):
             if same_expr(it_, "range(self._nPoints[1])") and same_expr(col, f"f[:, {iv}]") and pos(ci[0]) < pos(c1) and i_ok \
                     and pos(lp) < pos(c2):
                 okl = True
-            elif same_expr(it_, "range(self._nPoints[0])"):
+            elif same_expr(it_, "range(self._nPoints[0])") and same_expr(col, f"f[:, {iv}]"):
                 badl = "the loop runs over the number of theta points, not over the n_z columns of the slice: columns are missed or out of range"
             elif same_expr(col, f"f[{iv}, :]") or same_expr(col, f"f[{iv}]"):
                 badl = f"`{src(col)}` interpolates a row of the slice (fixed theta, along z) with the theta spline, not the z column {iv} along theta"
             elif pos(ci[0]) > pos(c1) and same_expr(col, f"f[:, {iv}]"):
                 badl = "the table row of column i is produced before the spline of column i is computed: it holds the previous column's values"
-        elif not ci:
+        elif not ci and not [n for n in ast.walk(lp) if isinstance(n, ast.Call) and n is not c1 and not any(n is x for x in ast.walk(c1))
+                             and not (isinstance(n.func, ast.Name) and n.func.id in ("range", "len", "enumerate"))]:
+            # not FINDING the interpolation is a defect only when the loop body is known completely: it contains no other call that
+            # could compute the spline (a helper, a method of another object)
             badl = "the theta spline is never recomputed inside the loop: every table row is produced from the same (stale) spline"
     chk.pat("E2-interpolate-before-evaluate", lp if lp is not None else fn, "for i in range(n_z): interpolate f[:, i]; fill table", okl,
             "every z column is interpolated along theta and entered into the table before the weighted sum overwrites f", badl,
